@@ -509,7 +509,7 @@ Proof.
     assert (Hs : hd_error (e_select (r_elite r) draws) = Some b).
     { apply e_select_hd; [rewrite E; reflexivity|]. unfold e_sel_size. rewrite Esp. lia. }
     unfold r_select. destruct (r_phase r) as [sols|sel net|sel].
-    + destruct Ph as [_ P2]. intros ->. apply (P2 b). rewrite E. cbn; auto.
+    + destruct Ph as [_ P2]. intros ->. apply (P2 b). cbn; auto.
     + destruct Ph as [_ P2]. apply (NE _ b). apply firstn_cons_hd; [auto|].
       set (es := if (6 <? sel)%nat then _ else _).
       assert (1 <= es)%nat by (unfold es; destruct (6 <? sel)%nat; [destruct (hit hits 0), (hit hits 1)|]; lia).
@@ -576,11 +576,11 @@ Proof.
 Qed.
 
 Lemma greedy_add_all_refuted :
-  exists ops p, batches_at_most_one ops = batches_at_most_one ops /\
+  exists ops p,
     run zcmp (zdedup 0 false) ops (greedy_new 1 None) = Some p /\
     exists x b, In x (offered ops) /\ hd_error (ranked p) = Some b /\ zcmp b x = Gt.
 Proof.
-  exists [OAddAll [ZI 1 5 0 1; ZI 2 3 0 1]]. eexists. split; [reflexivity|]. split; [vm_compute; reflexivity|].
+  exists [OAddAll [ZI 1 5 0 1; ZI 2 3 0 1]]. eexists. split; [vm_compute; reflexivity|].
   exists (ZI 2 3 0 1), (ZI 1 5 0 1). vm_compute. intuition.
 Qed.
 
